@@ -24,41 +24,41 @@ import (
 )
 
 type ConvCall struct {
-	Callee string   // e.g. strconv.ParseInt
-	Consts []string // constant arguments (exact strings), "_" for non-constant
-	FromSrc bool    // its non-constant argument derives from the source element
+	Callee  string   // e.g. strconv.ParseInt
+	Consts  []string // constant arguments (exact strings), "_" for non-constant
+	FromSrc bool     // its non-constant argument derives from the source element
 }
 
 type ParamRow struct {
-	In       string // query | header | path
-	Key      string // wire name
-	Field    *types.Var
-	FieldPath string // e.g. Query.Page
-	Required bool   // as implemented (presence check found)
-	Array    bool   // as implemented
-	Convs    []ConvCall
+	In         string // query | header | path
+	Key        string // wire name
+	Field      *types.Var
+	FieldPath  string // e.g. Query.Page
+	Required   bool   // as implemented (presence check found)
+	Array      bool   // as implemented
+	Convs      []ConvCall
 	OtherCalls []string
-	Pos      token.Pos
-	Problems []string // violations found by the typestate analysis
-	Undecided []string
+	Pos        token.Pos
+	Problems   []string // violations found by the typestate analysis
+	Undecided  []string
 }
 
 type PathPiece struct {
-	Lit  string // constant strip, or
-	Var  string // parameter name
+	Lit string // constant strip, or
+	Var string // parameter name
 }
 
 type ParserModel struct {
-	Decl      *ast.FuncDecl
-	Name      string
-	CanFail   bool
-	Rows      []*ParamRow
-	BaseStrip string
-	BaseSlash bool
-	Pieces    []PathPiece
-	Body      string // "" | "json" | "reader"
-	BodyType  types.Type
-	Undecided []string
+	Decl       *ast.FuncDecl
+	Name       string
+	CanFail    bool
+	Rows       []*ParamRow
+	BaseStrip  string
+	BaseSlash  bool
+	Pieces     []PathPiece
+	Body       string // "" | "json" | "reader"
+	BodyType   types.Type
+	Undecided  []string
 	ParamsType types.Type
 }
 
@@ -81,7 +81,9 @@ func (c *pmCtx) isZero(e ast.Expr) bool {
 	return c.zero != nil && identObj(c.info, e) == c.zero
 }
 
-func (c *pmCtx) und(format string, a ...any) { c.m.Undecided = append(c.m.Undecided, fmt.Sprintf(format, a...)) }
+func (c *pmCtx) und(format string, a ...any) {
+	c.m.Undecided = append(c.m.Undecided, fmt.Sprintf(format, a...))
+}
 
 func (c *pmCtx) constStr(e ast.Expr) (string, bool) {
 	tv, ok := c.info.Types[e]
@@ -796,7 +798,10 @@ func condFactsNot(c *pmCtx, e ast.Expr, s tsState, neg bool, vals, okObj types.O
 			if id, ok := call.Fun.(*ast.Ident); ok && id.Name == "len" {
 				if tv := info.Types[be.Y]; tv.Value != nil {
 					k, _ := constant.Int64Val(tv.Value)
-					type rel struct{ op token.Token; k int64 }
+					type rel struct {
+						op token.Token
+						k  int64
+					}
 					r := rel{be.Op, k}
 					nonEmpty, isOne := 0, 0 // +1 true, -1 false, 0 unknown
 					switch r {
@@ -1150,10 +1155,10 @@ func parserModels(p *Program) map[string]*ParserModel {
 // ServeHTTP → <Op>HTTPRequest → Parse → new<Op>Params, via the static
 // Path()/Method() methods the handler type declares.
 type handlerInfo struct {
-	TypeName string
-	Path     string
-	Method   string
-	Parser   string
+	TypeName  string
+	Path      string
+	Method    string
+	Parser    string
 	RespIface *types.Named
 }
 
